@@ -215,4 +215,123 @@ BY DEF CacheInit, Inv2, TypeOK2, CacheWithinMarked, CountersPositive, PendingMar
 
 THEOREM Housekeeping == Inv2 => CacheWithinMarked /\ CountersPositive /\ StackDistinct
 BY DEF Inv2
+
+(***************************************************************************)
+(* Third inductive invariant, relative to the state D0 / C0 that the       *)
+(* marking pass and the wild-card pre-loading left: fetches made + fetches *)
+(* left = fetches counted (so an ordinary key is fetched at most as often  *)
+(* as counted: FetchBound), wild-card sets are never lost (WildKept), and  *)
+(* whatever is cached was pre-loaded or stored by a Save (CachedWasSaved). *)
+(***************************************************************************)
+CONSTANTS D0, C0
+
+TypeOK3 == /\ duplicates \in [DOMAIN duplicates -> Int]
+           /\ hits \in [Keys -> Int]
+           /\ D0 \in [DOMAIN D0 -> Int]
+           /\ DOMAIN D0 \subseteq Keys
+(* the books balance: fetches made + fetches left = fetches counted, and a key whose counter is gone was fetched *)
+(* exactly as often as counted                                                                                  *)
+Balance == /\ Marked \subseteq DOMAIN D0
+           /\ \A k \in (DOMAIN D0) \ Wild :
+                /\ k \in Marked => hits[k] + duplicates[k] = D0[k] /\ duplicates[k] > 0
+                /\ k \notin Marked => hits[k] = D0[k]
+Inv3 == TypeOK3 /\ Balance /\ WildKept(C0) /\ CachedWasSaved(C0)
+
+LEMMA InitInv3 ==
+  ASSUME D0 \in [DOMAIN D0 -> Int], DOMAIN D0 \subseteq Keys, \A k \in (DOMAIN D0) \ Wild : D0[k] > 0,
+         CacheInit(D0, C0)
+  PROVE  Inv3
+BY DEF CacheInit, Inv3, TypeOK3, Balance, WildKept, CachedWasSaved, Marked
+
+THEOREM Step3 == ASSUME Inv3, Next PROVE Inv3'
+<1>1. CASE \E k \in Keys : Hit(k)
+  <2> PICK k \in Keys : Hit(k) BY <1>1
+  <2>1. /\ k \in Marked /\ k \in cache /\ UNCHANGED saved
+        /\ hits' = [hits EXCEPT ![k] = hits[k] + 1]
+    BY DEF Hit
+  <2>h. /\ hits' \in [Keys -> Int] /\ hits'[k] = hits[k] + 1 /\ \A x \in Keys : x # k => hits'[x] = hits[x]
+    BY <2>1 DEF Inv3, TypeOK3
+  <2>d. duplicates[k] \in Int BY <2>1 DEF Inv3, TypeOK3, Marked
+  <2>2. CASE duplicates[k] - 1 = 0 /\ k \notin Wild
+    <3>1. duplicates' = Drop(duplicates, k) /\ cache' = cache \ {k} BY <2>2 DEF Hit
+    <3>1a. duplicates' = [x \in (DOMAIN duplicates) \ {k} |-> duplicates[x]] BY <3>1 DEF Drop
+    <3>2. DOMAIN duplicates' = (DOMAIN duplicates) \ {k} /\ \A x \in DOMAIN duplicates' : duplicates'[x] = duplicates[x]
+      BY <3>1a
+    <3>3. duplicates' \in [DOMAIN duplicates' -> Int] BY <3>1a DEF Inv3, TypeOK3
+    <3>4. Balance'
+      <4>1. Marked' \subseteq DOMAIN D0 BY <3>2 DEF Inv3, Balance, Marked
+      <4>2. ASSUME NEW x \in (DOMAIN D0) \ Wild
+            PROVE  /\ x \in Marked' => hits'[x] + duplicates'[x] = D0[x] /\ duplicates'[x] > 0
+                   /\ x \notin Marked' => hits'[x] = D0[x]
+        <5>1. CASE x = k
+          <6>1. k \in (DOMAIN D0) \ Wild BY <5>1
+          <6>2. hits[k] + duplicates[k] = D0[k] BY <6>1, <2>1 DEF Inv3, Balance
+          <6>3. duplicates[k] = 1 BY <2>2, <2>d
+          <6>4. hits'[k] = D0[k] BY <6>2, <6>3, <2>h DEF Inv3, TypeOK3
+          <6>5. k \notin Marked' BY <3>2 DEF Marked
+          <6> QED BY <5>1, <6>4, <6>5
+        <5>2. CASE x # k
+          <6>1. x \in Keys BY DEF Inv3, TypeOK3
+          <6>2. hits'[x] = hits[x] BY <5>2, <6>1, <2>h
+          <6>3. x \in Marked' <=> x \in Marked BY <5>2, <3>2 DEF Marked
+          <6>4. x \in Marked => duplicates'[x] = duplicates[x] BY <5>2, <3>2, <6>3 DEF Marked
+          <6> QED BY <6>2, <6>3, <6>4 DEF Inv3, Balance
+        <5> QED BY <5>1, <5>2
+      <4> QED BY <4>1, <4>2 DEF Balance
+    <3>5. WildKept(C0)' BY <3>1, <2>2 DEF Inv3, WildKept
+    <3>6. CachedWasSaved(C0)' BY <3>1, <2>1 DEF Inv3, CachedWasSaved
+    <3> QED BY <2>h, <3>3, <3>4, <3>5, <3>6 DEF Inv3, TypeOK3
+  <2>3. CASE ~(duplicates[k] - 1 = 0 /\ k \notin Wild)
+    <3>1. duplicates' = [duplicates EXCEPT ![k] = duplicates[k] - 1] /\ cache' = cache BY <2>3 DEF Hit
+    <3>2. DOMAIN duplicates' = DOMAIN duplicates BY <3>1
+    <3>3. duplicates' \in [DOMAIN duplicates' -> Int] BY <3>1, <3>2, <2>d DEF Inv3, TypeOK3
+    <3>4. Balance'
+      <4>1. Marked' \subseteq DOMAIN D0 BY <3>2 DEF Inv3, Balance, Marked
+      <4>2. ASSUME NEW x \in (DOMAIN D0) \ Wild
+            PROVE  /\ x \in Marked' => hits'[x] + duplicates'[x] = D0[x] /\ duplicates'[x] > 0
+                   /\ x \notin Marked' => hits'[x] = D0[x]
+        <5>0. x \in Keys BY DEF Inv3, TypeOK3
+        <5>1. CASE x = k
+          <6>1. hits[k] + duplicates[k] = D0[k] /\ duplicates[k] > 0 BY <5>1, <2>1 DEF Inv3, Balance
+          <6>2. duplicates'[k] = duplicates[k] - 1 BY <3>1, <2>1 DEF Marked
+          <6>3. duplicates[k] - 1 # 0 BY <2>3, <5>1
+          <6>4. hits[k] \in Int BY DEF Inv3, TypeOK3
+          <6>5. D0[k] \in Int BY <5>1 DEF Inv3, TypeOK3
+          <6> QED BY <5>1, <6>1, <6>2, <6>3, <6>4, <6>5, <2>h, <2>d, <2>1, <3>2 DEF Marked
+        <5>2. CASE x # k
+          <6>1. hits'[x] = hits[x] BY <5>2, <5>0, <2>h
+          <6>2. x \in Marked => duplicates'[x] = duplicates[x] BY <5>2, <3>1 DEF Marked
+          <6> QED BY <6>1, <6>2, <3>2 DEF Inv3, Balance, Marked
+        <5> QED BY <5>1, <5>2
+      <4> QED BY <4>1, <4>2 DEF Balance
+    <3>5. WildKept(C0)' BY <3>1 DEF Inv3, WildKept
+    <3>6. CachedWasSaved(C0)' BY <3>1, <2>1 DEF Inv3, CachedWasSaved
+    <3> QED BY <2>h, <3>3, <3>4, <3>5, <3>6 DEF Inv3, TypeOK3
+  <2> QED BY <2>2, <2>3
+<1>2. CASE \E k \in Keys : Save(k)
+  <2> PICK k \in Keys : Save(k) BY <1>2
+  <2>1. cache' = cache \cup {k} /\ saved' = saved \cup {k} /\ UNCHANGED <<duplicates, hits>> BY DEF Save
+  <2> QED BY <2>1 DEF Inv3, TypeOK3, Balance, WildKept, CachedWasSaved, Marked
+<1>3. CASE \E k \in Keys : Shortcut(k)
+  BY <1>3 DEF Shortcut, Inv3, TypeOK3, Balance, WildKept, CachedWasSaved, Marked
+<1>4. CASE \E k \in Keys : \E s \in BOOLEAN : Miss(k, s)
+  BY <1>4 DEF Miss, Inv3, TypeOK3, Balance, WildKept, CachedWasSaved, Marked
+<1>5. CASE \E v \in STRING, d \in STRING : Open(v, d)
+  BY <1>5 DEF Open, Inv3, TypeOK3, Balance, WildKept, CachedWasSaved, Marked
+<1>6. CASE \E v \in STRING : Close(v)
+  BY <1>6 DEF Close, Inv3, TypeOK3, Balance, WildKept, CachedWasSaved, Marked
+<1> QED BY <1>1, <1>2, <1>3, <1>4, <1>5, <1>6 DEF Next
+
+THEOREM Books ==
+  ASSUME Inv3, \A k \in (DOMAIN D0) \ Wild : D0[k] > 0
+  PROVE  FetchBound(D0) /\ WildKept(C0) /\ CachedWasSaved(C0)
+<1>1. ASSUME NEW k \in (DOMAIN D0) \ Wild PROVE hits[k] <= D0[k]
+  <2>1. hits[k] \in Int /\ D0[k] \in Int BY DEF Inv3, TypeOK3
+  <2>2. CASE k \in Marked
+    <3>1. hits[k] + duplicates[k] = D0[k] /\ duplicates[k] > 0 BY <2>2 DEF Inv3, Balance
+    <3>2. duplicates[k] \in Int BY <2>2 DEF Inv3, TypeOK3, Marked
+    <3> QED BY <2>1, <3>1, <3>2
+  <2>3. CASE k \notin Marked BY <2>1, <2>3 DEF Inv3, Balance
+  <2> QED BY <2>2, <2>3
+<1> QED BY <1>1 DEF FetchBound, Inv3
 =============================================================================
